@@ -113,6 +113,22 @@ def special_target(world, kind, node):
     }[kind]
 
 
+def respell(url, how):
+    """Equivalent spellings of the same URL (they normalise to the canonical one)."""
+    if how == "upper-host":
+        head, rest = url.split("://", 1)
+        auth, _, path = rest.partition("/")
+        return f"{head}://{auth.upper()}/{path}"
+    if how == "empty-query":
+        return url + "?"
+    if how == "upper-scheme-lower-rest":
+        return url
+    return url
+
+
+SPELLINGS = ["canon", "upper-host", "empty-query"]
+
+
 def run_graph(ctx, world, nodes, edges, start, max_redirects, follow, label):
     """nodes: list of (server, n); edges: dict node -> ('final', status) | ('node', node2, code) | ('special', kind, code)."""
     from nauyaca.client.session import GeminiClient
@@ -125,7 +141,7 @@ def run_graph(ctx, world, nodes, edges, start, max_redirects, follow, label):
             st = e[1]
             world.table[(node[0], f"/n{node[1]}")] = (f"{st} text/gemini\r\nfinal at n{node[1]}\n" if st == 20 else f"{st} final-meta-n{node[1]}\r\n").encode()
         elif e[0] == "node":
-            world.table[(node[0], f"/n{node[1]}")] = f"{e[2]} {world.url(e[1])}\r\n".encode()
+            world.table[(node[0], f"/n{node[1]}")] = f"{e[2]} {respell(world.url(e[1]), e[3] if len(e) > 3 else 'canon')}\r\n".encode()
         else:
             world.table[(node[0], f"/n{node[1]}")] = f"{e[2]} {special_target(world, e[1], node)}\r\n".encode()
     # ---- model walk
@@ -244,6 +260,9 @@ def run_graph(ctx, world, nodes, edges, start, max_redirects, follow, label):
 def all_small_graphs(world):
     """All graphs over N<=2 nodes with the full target alphabet; chain graphs of every length up to 8."""
     out = []
+    for sp in SPELLINGS[1:]:
+        node = (0, 0)
+        out.append(([node], {node: ("node", node, 31, sp)}, node, f"self-loop-{sp}"))
     for n in (1, 2):
         nodes = [(i % 3, i) for i in range(n)]
         choices = []
@@ -268,6 +287,12 @@ def all_small_graphs(world):
             cyc = dict(edges)
             cyc[nodes[-1]] = ("node", nodes[0], 30)
             out.append((nodes, cyc, nodes[0], f"cycle-{length + 1}"))
+            for sp in SPELLINGS[1:]:
+                # the same chain / cycle, every target written in an equivalent non-canonical spelling
+                e2 = {n: (e[0], e[1], e[2], sp) if e[0] == "node" else e for n, e in edges.items()}
+                out.append((nodes, e2, nodes[0], f"chain-{length}-{sp}"))
+                c2 = {n: (e[0], e[1], e[2], sp) if e[0] == "node" else e for n, e in cyc.items()}
+                out.append((nodes, c2, nodes[0], f"cycle-{length + 1}-{sp}"))
     return out
 
 
@@ -280,7 +305,7 @@ def random_graph(rng, world):
         if r < 0.25:
             edges[node] = ("final", rng.choice([20, 20, 51, 10]))
         elif r < 0.9:
-            edges[node] = ("node", rng.choice(nodes), rng.choice([30, 31]))
+            edges[node] = ("node", rng.choice(nodes), rng.choice([30, 31]), rng.choice(SPELLINGS))
         else:
             edges[node] = ("special", rng.choice(SPECIAL_TARGETS), 30)
     return nodes, edges, nodes[0], f"random-N{n}"
